@@ -50,6 +50,11 @@ CLAIMED['C17'] = dict(
     note='Trusted: Coq kernel; hand-written byte model tied by replaying corruption experiments (every byte offset of both fences, many values, multi-byte corruptions inside one word, in-bounds write sets) on heap, malloc, new and virtual memory allocators in dbg8/dbg16/fen8 (and in-bounds only in base): the sequence of reported addresses must equal the model. Fill patterns of the other allocators are checked on the implementation (new-memory pattern on every result; freed pattern on released pool nodes outside the link bytes), not proved per allocator.',
     technique='Coq proofs over a byte-level model + experiment replay', ref='5 C17')
 
+CLAIMED['C15'] = dict(
+    text='Model of object_leak_checker as used by memory_pool, memory_pool_collection and memory_stack. Theorem for every history of traits-level allocations and releases (any byte amounts) with move constructions and move assignments at arbitrary points: destruction calls the handler exactly once with the exact net amount iff it is non-zero, a move construction reports nothing and carries the count along, a move assignment reports exactly the outstanding amount of the allocator it overwrites, a balanced history is silent, nothing is reported after destruction.',
+    note='Trusted: Coq kernel; small hand-written model tied by replaying histories with a capturing leak handler (node and array requests whose element size differs from the node size, arbitrary unreleased subsets, moves onto fresh and leaking targets) on pools, collections and stacks in base/dbg8; the stateless low-level allocators are run in child processes and must report the process-wide net (actual sizes, fences included) exactly once during static destruction -- checked on the implementation, the global counter is not modelled separately.',
+    technique='Coq proof over a counter model + replay with captured handler', ref='5 C15')
+
 NOT_YET = {}
 
 checks = []
